@@ -953,4 +953,3 @@ func keys(m map[int]bool) []int {
 	sort.Ints(k)
 	return k
 }
-
